@@ -339,7 +339,7 @@ func poolHammer(seed uint64, idx int, thorough bool) hammerResult {
 	pool := &syncx.Pool{New: func() interface{} { return &pobj{id: atomic.AddInt64(&ids, 1)} }}
 	G := 4*runtime.NumCPU() + 2 + rng.Intn(8) // more goroutines than the largest GOMAXPROCS of the ladder
 	res.Goroutines = G
-	dur := 1200 * time.Millisecond
+	dur := 900 * time.Millisecond
 	if thorough {
 		dur = 5 * time.Second
 	}
@@ -665,6 +665,8 @@ func main() {
 		var out interface{}
 		if parts[1] == "pool" {
 			out = poolStorm(o.Seed, idx, o.Thorough())
+		} else if parts[1] == "climb" {
+			out = poolClimb(o.Seed, idx, o.Thorough())
 		} else if parts[1] == "multi" {
 			out = multiPool(o.Seed, idx, o.Thorough())
 		} else if parts[1] == "idle" {
@@ -709,6 +711,13 @@ func main() {
 	if th {
 		nham = 8
 	}
+	nclimb := 3 // GOMAXPROCS climbing while all Ps cross block boundaries (climb.go)
+	if th {
+		nclimb = 9
+	}
+	for i := 0; i < nclimb; i++ {
+		jobs = append(jobs, &job{what: "climb", idx: i})
+	}
 	for i := 0; i < nham; i++ {
 		jobs = append(jobs, &job{what: "hammer", idx: i})
 	}
@@ -742,7 +751,7 @@ func main() {
 
 	totalEvents, totalGC, totalPC, stolenRuns, totalAbove := 0, 0, 0, 0, 0
 	var hammerOps int64
-	idleRuns, idleDropped, multiRuns := 0, 0, 0
+	idleRuns, idleDropped, multiRuns, climbSteps := 0, 0, 0, 0
 	type pcase struct {
 		term, label string
 		replay      interface{}
@@ -758,6 +767,9 @@ func main() {
 		}
 		if j.what == "idle" {
 			label = "pool/idle-then-collect"
+		}
+		if j.what == "climb" {
+			label = "pool/GOMAXPROCS climbing under load(ownership flag)"
 		}
 		if j.what == "multi" {
 			label = "pool/several pools across a GOMAXPROCS ladder"
@@ -783,6 +795,19 @@ func main() {
 				totalEvents += len(pr.Events)
 				m2 := map[string]interface{}{"pool": k, "events": len(pr.Events), "run": meta}
 				pcs = append(pcs, pcase{histTerm(pr), label, m2})
+			}
+			continue
+		}
+		if j.what == "climb" {
+			var r climbResult
+			if err := json.Unmarshal(j.out, &r); err != nil {
+				w.Violation(label, "child output unreadable", map[string]interface{}{"error": err.Error(), "stderr": j.tail})
+				continue
+			}
+			hammerOps += r.Ops
+			climbSteps += r.Steps
+			if r.FlagViolations > 0 || r.NilGets > 0 || r.Foreign > 0 {
+				w.Violation(label, "an object was handed out while another caller owned it (or came from another pool, or Get returned nil with New set) while GOMAXPROCS was being raised", r)
 			}
 			continue
 		}
@@ -882,6 +907,7 @@ func main() {
 	emitDeque(w, rng.Fork(), th, o.Seed)
 	w.Notes["idle_then_collect_runs"] = idleRuns
 	w.Notes["several_pools_ladder_runs"] = multiRuns
+	w.Notes["gomaxprocs_steps_while_all_ps_cross_block_boundaries"] = climbSteps
 	w.Notes["idle_then_collect_runs_where_gc_dropped_chains"] = idleDropped
 	w.Notes["pool_history_events"] = totalEvents
 	w.Notes["hammer_get_put_calls_flag_checked"] = hammerOps
